@@ -17,7 +17,10 @@ RULE = (
     "CREATE(inline fks)/ALTER ADD/DROP/ALTER DROP and compared with the model plan (the ALTER block, "
     "whose order is a set iteration order, is compared as a set). non-trivial = at least one FK or "
     "dependency between two different tables (distribution counts cyclic graphs separately). Kinds "
-    "history-*: the MetaData is built by a HISTORY (tables defined parent-first / child-first, FKs by "
+    "explicit-*: cyclic FK graphs on 2..3 tables with an add_is_dependent_on edge on / against / both "
+    "ways along an FK edge of the cycle (the pair the cycle handling removes) or elsewhere; the "
+    "oracle requires every explicit dependency to be respected by sorted_tables and by the CREATE / "
+    "DROP TABLE order and explicit cycles to raise. Kinds history-*: the MetaData is built by a HISTORY (tables defined parent-first / child-first, FKs by "
     "name and as Column objects, MetaData.remove + redefinition of parent and/or child, "
     "Table(..., extend_existing=True) keeping / retargeting / adding constraints; small-scope family "
     "over single-column ForeignKey, ForeignKeyConstraint, two-column constraints + random histories) "
@@ -166,6 +169,43 @@ def _random_md(rng, nmax):
     return tables
 
 
+def _explicit_family(rng, tier):
+    """every cyclic FK graph on 2..3 tables (a sample on quick) x one explicit dependency
+    t.add_is_dependent_on(p) placed (a) on an FK edge of the graph (the same (referred, table) pair the
+    cycle handling removes), (b) against such an edge, (c) both (an unbreakable explicit cycle), (d) on
+    a pair without FK - in two insertion orders, for create_all / drop_all / sorted_tables"""
+    cases = []
+    for n in (2, 3):
+        for g in _graphs(n):
+            es = {(b, a) for (a, b) in g if a != b}  # (referred, table)
+            if not es or not _has_cycle(es, set(range(n))):
+                continue
+            if n == 3 and tier != "thorough" and rng.random() < 0.9:
+                continue
+            pats = _flag_patterns(rng)
+            fk_edges = sorted(es)
+            others = [(p, c) for p in range(n) for c in range(n) if p != c and (p, c) not in es]
+            variants = []
+            e = rng.choice(fk_edges)
+            variants.append(("same", [e]))
+            variants.append(("against", [(e[1], e[0])]))
+            variants.append(("both", [e, (e[1], e[0])]))
+            if len(fk_edges) > 1:
+                variants.append(("same2", rng.sample(fk_edges, 2)))
+            if others:
+                variants.append(("other", [rng.choice(others)]))
+            for vname, extra in variants:
+                for order in (list(range(n)), list(reversed(range(n)))):
+                    pat = pats[rng.choice([0, 1, 2])]
+                    tables = _mk(order, g, pat)
+                    for t in tables:
+                        t[2] = sorted({p for (p, c) in extra if c == t[0]})
+                    for op in (0, 1, 2):
+                        if op != 2 or order[0] == 0:
+                            cases.append(_case(op, [[t[0], [list(f) for f in t[1]], list(t[2])] for t in tables], "explicit-" + vname))
+    return cases
+
+
 def _hcase(op, steps, kind, existing=None, checkfirst=0):
     cur = _current(steps) or []
     names = sorted(t[0] for t in cur)
@@ -290,7 +330,7 @@ def gen_cases(rng, tier):
                     cases.append(_case(0, _mk(order, g, pats[2]), kind))
                     cases.append(_case(1, _mk(order, g, pats[0]), kind))
                     cases.append(_case(2, _mk(order, g, pats[1]), kind))
-                elif n < 3 or tier == "thorough" or rng.random() < 0.7:
+                elif n < 3 or tier == "thorough" or rng.random() < 0.5:
                     cases.append(_case(0, _mk(order, g, pats[1]), kind))
                     cases.append(_case(1, _mk(order, g, pats[2]), kind))
                     if rng.random() < 0.3:
@@ -303,6 +343,8 @@ def gen_cases(rng, tier):
             cases.append(_case(op, tables, "random-checkfirst", _closed_subset(rng, tables), 1))
         else:
             cases.append(_case(op, tables, "random"))
+    # explicit dependencies (add_is_dependent_on) that coincide with / oppose the FK edges of a cycle
+    cases += _explicit_family(rng, tier)
     # metadata histories: remove / redefine / extend_existing before the plan is computed
     cases += _history_family(rng)
     for _ in range(3000 if tier == "thorough" else 350):
@@ -717,12 +759,18 @@ def oracle(c, obs):
         fixed_cyc = _has_cycle(_deps([[n, [], e] for n, _, e in tables]), set(names))
         if obs == [1]:
             return None if fixed_cyc else "sorted_tables raised CircularDependencyError without a cycle of add_is_dependent_on edges"
+        if fixed_cyc:
+            return "add_is_dependent_on edges form a cycle but sorted_tables did not raise CircularDependencyError: %s" % (obs,)
         order = obs[1]
         if sorted(order) != sorted(names):
             return "sorted_tables %s is not a permutation of the tables %s" % (order, names)
         es = _deps(tables)
         r = _reach(es, set(names))
         pos = {n: i for i, n in enumerate(order)}
+        # an explicit dependency is never dropped from the sort, cycle or not
+        for p, ch in sorted(_deps([[n, [], e] for n, _, e in tables])):
+            if p in pos and not pos[p] < pos[ch]:
+                return "sorted_tables %s lists t%d before t%d although t%d.add_is_dependent_on(t%d)" % (order, ch, p, ch, p)
         for p, ch in es:
             if p in pos and ch not in r[ch] and not pos[p] < pos[ch]:
                 return "sorted_tables %s lists t%d before the table t%d it depends on (t%d is on no cycle)" % (order, ch, p, ch)
@@ -740,6 +788,10 @@ def oracle(c, obs):
         if _has_cycle(stuck, tn):
             return None
         return "CircularDependencyError although every dependency cycle can be broken by ALTER"
+    explicit = _deps([[n, [], e] for n, _, e in todo])
+    if _has_cycle(explicit, tn):
+        return "add_is_dependent_on edges form a cycle among the tables but %s did not raise CircularDependencyError" % (
+            "create_all" if op == 0 else "drop_all")
     if obs[0] == 2:
         if op == 1 and any(f[2] and not f[3] for t in todo for f in t[1]):
             return None  # documented: use_alter needs a name for DROP CONSTRAINT
@@ -764,6 +816,18 @@ def oracle(c, obs):
     else:
         if any(n in cat.t for n in tn):
             return "tables left after drop_all: %s" % sorted(cat.t)
+    # explicit dependencies (add_is_dependent_on) order the CREATE / DROP TABLE statements as well
+    kind = 0 if op == 0 else 2
+    pos = {}
+    for i, st in enumerate(seq):
+        if st[0] == kind:
+            pos.setdefault(st[1], i)
+    for p, ch in sorted(explicit):
+        if p in pos and ch in pos and p != ch:
+            if op == 0 and not pos[p] < pos[ch]:
+                return "create_all emits CREATE TABLE t%d before CREATE TABLE t%d although t%d.add_is_dependent_on(t%d)" % (ch, p, ch, p)
+            if op == 1 and not pos[ch] < pos[p]:
+                return "drop_all emits DROP TABLE t%d before DROP TABLE t%d although t%d.add_is_dependent_on(t%d)" % (p, ch, ch, p)
     return None
 
 
